@@ -244,3 +244,36 @@ func exprTextD(info *types.Info, e ast.Expr, defs map[types.Object]localDef, dep
 	}
 	return exprText(info, e)
 }
+
+// mayReach: the definitions of o that can still hold at `use`: every definition written before it, except those that
+// a later definition overrides for certain (one that is a direct statement of a block enclosing the use). Definitions
+// on paths that leave the function before the use are kept (more to check, never less).
+func (ri *reachInfo) mayReach(o types.Object, use ast.Node) []reachDef {
+	P := use.Pos()
+	var before []reachDef
+	for _, d := range ri.defs[o] {
+		if d.eff <= P {
+			before = append(before, d)
+		}
+	}
+	var out []reachDef
+	for _, d := range before {
+		killed := false
+		for _, d2 := range before {
+			if d2.stmt.Pos() <= d.stmt.Pos() {
+				continue
+			}
+			cont := ri.parents[d2.stmt]
+			if cont != nil && cont.Pos() <= P && P < cont.End() {
+				if f, ok := cont.(*ast.ForStmt); ok && f.Post == d2.stmt {
+					continue
+				}
+				killed = true
+			}
+		}
+		if !killed {
+			out = append(out, d)
+		}
+	}
+	return out
+}
